@@ -34,7 +34,7 @@ LEVEL_NOTE = ('Photometry from a finite alphabet; records are compared through t
 RULE = ("(a) cases: (line sequence chunk, configuration); one execution per data file, one evaluation per record. (b) a state is the canonical hash of everything handed to the calls "
         "(objects and file bytes); a transition is one post-processing call; non-trivial = distinct (configuration, sequence) of length >= 2 / data files with at least one ineligible line")
 ASSUMPTIONS = ["finite value alphabets", "output paths are always fresh (the library prompts before overwriting)"]
-REQUIRED_CLASSES = ['remove-resolved-after-a-default-call', 'ineligible-line-skipped', 'all-eligible', 'selector-cuts', 'without-model-fluxes', 'with-model-fluxes', 'mode-2d', 'mode-3d', 'format-v2', 'history-depth-2',
+REQUIRED_CLASSES = ['held-result-keeps-its-metadata', 'remove-resolved-after-a-default-call', 'ineligible-line-skipped', 'all-eligible', 'selector-cuts', 'without-model-fluxes', 'with-model-fluxes', 'mode-2d', 'mode-3d', 'format-v2', 'history-depth-2',
                     'form-path', 'form-object', 'form-list', 'op-plot', 'op-filter_output', 'op-write_parameters', 'op-write_parameter_ranges', 'op-extract_parameters',
                     'nan-inf-record-roundtrip', 'longer-file', 'law-in-other-unit', 'op-plot_params_1d', 'op-plot_params_2d', 'op-plot-convolved', 'no-trailing-newline', 'selector-keeps-nothing', 'data-as-open-file', 'single-model-package', 'duplicate-source-names', 'record-without-fits-handed-on']
 TIMEOUT = {'quick': 900, 'thorough': 3600}
@@ -155,6 +155,35 @@ def _part_a(ctx, case, rec, d):
     ref_fitter = Fitter(list(B3), theta, md, remove_resolved=rr, **kw)
     kw_fit = dict(kw, remove_resolved=True) if rr else kw
     ckey = tuple(sorted((kk, str(v)) for kk, v in cfg.items()))
+    # a result held in memory keeps ITS metadata when another fitter (other package directory, other filters, other law) is
+    # built and used in the same process
+    try:
+        if case['seqs'][0] != 'A':
+            raise StopIteration          # once per configuration (its first chunk of line sequences)
+        s_held = Source.from_ascii(_line('held', 'A', base, 0, seed))
+        held_info = ref_fitter.fit(s_held)
+        m0 = canon([held_info.meta.model_dir, held_info.meta.filters, held_info.meta.extinction_law])
+        if mode == '2d':
+            md_o = fc.build_package(d, 'pkg_other', {'fmt': fmt, 'names': names, 'bands': B3, 'flux': f * 2.0})
+        else:
+            md_o = fc.build_package(d, 'pkg_other', {'fmt': fmt, 'names': names, 'bands': B3, 'apertures': ap, 'tables': t * 2.0, 'logd_step': 0.25})
+        other = Fitter(list(B3[:2]), np.ones(2) * 2.0 * u.arcsec, md_o, extinction_law=fc.law_object('three'), av_range=[0.0, 3.0], distance_range=np.array([0.5, 4.0]) * u.kpc)
+        s_o = Source()
+        s_o.name, s_o.x, s_o.y = 'other', 0.0, 0.0
+        s_o.valid = np.array([1, 1])
+        s_o.flux = np.array([1.0, 2.0])
+        s_o.error = np.array([0.1, 0.2])
+        other.fit(s_o)
+        rec.trans(2)
+        rec.ev()
+        rec.cls('held-result-keeps-its-metadata')
+        if held_info.meta.model_dir != md or canon([held_info.meta.model_dir, held_info.meta.filters, held_info.meta.extinction_law]) != m0:
+            rec.violation('fit()|metadata', {'held_result': True}, {'problem': 'a result held in memory reports model_dir %r after another fitter (package %r) was used; it was obtained with %r' % (held_info.meta.model_dir, md_o, md)})
+    except StopIteration:
+        pass
+    except Exception as e:
+        from mc.runner import exc_signature
+        rec.violation('fit()|' + exc_signature(e), {'held_result': True}, {'type': type(e).__name__, 'msg': str(e)[:300]})
     for si, seq in enumerate(case['seqs']):
         # every third file repeats a source name (two lines may well carry the same name)
         lines = [_line('s%02d_%s' % ((i if (si % 3 or i == 0) else i - 1), kd) if si % 3 == 0 and False else ('s%02d' % (i // 2 if si % 3 == 0 else i)), kd, base, i, seed) for i, kd in enumerate(seq)]
